@@ -132,7 +132,7 @@ theorem live_regReady {α} (d0 : α) : Live (regReady d0) Trans.idT okTrue false
       simp
     · refine ⟨t', ht, Or.inl ?_⟩
       have h' : ((regReady d0).fwd ((regReady d0).state env t') (env t').ctl (env t').inp).valid = false := h
-      show (regReady d0).bwd ((regReady d0).state env t') (env t').ctl (env t').rdy = true
+      show (regReady d0).bwd ((regReady d0).state env t') (env t').ctl (env t').inp (env t').rdy = true
       generalize (regReady d0).state env t' = s at h' ⊢
       rcases s with ⟨v, d⟩
       cases v <;> simp [regReady] at h' ⊢
